@@ -19,6 +19,9 @@ import (
 // independently for different replicas of one configuration; every instance's answer is printed.
 //
 //	rr <n> <view>                       -> leaders=[a,b]
+//	rrgrow <k> <n> <v1> <v2>            -> first=<x> leaders=[a,b]   one instance over a configuration that has k replicas
+//	                                       when first asked (view v1) and n when asked again (view v2); a second instance
+//	                                       is built over the complete configuration
 //	fixed <id> <view>                   -> leaders=[a,b]
 //	notree <n> <view>                   -> leaders=[a,b]
 //	tree <n> <bf> <[positions]> <view>  -> leaders=[a,b,c]
@@ -103,6 +106,25 @@ func (f *leaderFam) op(a []string) string {
 			ls[1] = leaderrotation.NewTreeBased(f.cfg(other, n))
 		}
 		return leadersStr([]hotstuff.ID{ls[0].GetLeader(hotstuff.View(v)), ls[1].GetLeader(hotstuff.View(v))})
+	case "rrgrow":
+		if len(a) != 5 {
+			return "bad-op"
+		}
+		k, err1 := strconv.Atoi(a[1])
+		n, err2 := strconv.Atoi(a[2])
+		v1, err3 := strconv.ParseUint(a[3], 10, 64)
+		v2, err4 := strconv.ParseUint(a[4], 10, 64)
+		if err1 != nil || err2 != nil || err3 != nil || err4 != nil || k < 1 || n < k || n > 64 {
+			return "bad-op"
+		}
+		cfg := plainConfig(1, k)
+		early := leaderrotation.NewRoundRobin(cfg)
+		first := early.GetLeader(hotstuff.View(v1))
+		for j := k + 1; j <= n; j++ {
+			cfg.AddReplica(&hotstuff.ReplicaInfo{ID: hotstuff.ID(j)})
+		}
+		late := leaderrotation.NewRoundRobin(plainConfig(n, n))
+		return fmt.Sprintf("first=%d ", first) + leadersStr([]hotstuff.ID{early.GetLeader(hotstuff.View(v2)), late.GetLeader(hotstuff.View(v2))})
 	case "fixed":
 		if len(a) != 3 {
 			return "bad-op"
